@@ -3,8 +3,7 @@
 
 use std::any::{Any, TypeId};
 use std::cell::RefCell;
-use std::collections::hash_map;
-use std::sync::{LazyLock, RwLock};
+use std::sync::{Arc, LazyLock, OnceLock, RwLock};
 
 use hash_hasher::HashedMap;
 
@@ -174,8 +173,48 @@ where
             .read()
             .expect(ERR_POISONED_LOCK)
             .get(&(self.family_key_provider)())
-            .and_then(|w| w.downcast_ref::<Family<T>>())
+            .and_then(|w| w.downcast_ref::<FamilyCell<T>>())
+            .and_then(|cell| cell.get())
             .cloned()
+    }
+
+    /// Returns the global registry entry of the family, registering an empty one if necessary.
+    fn family_cell_global(&self) -> FamilyCell<T> {
+        // TODO: We are repeatedly acquiring the family key here and in sibling functions.
+        // Perhaps a trivial cost but explore the value of eliminating the duplicate access.
+        let family_key = (self.family_key_provider)();
+
+        #[cfg(folo_verif)]
+        crate::verif::block_until("static.rcheck", &|| {
+            crate::verif::lock_is_free(GLOBAL_REGISTRY.try_read())
+        });
+
+        // The common case (any thread after the first one): the entry already exists.
+        if let Some(cell) = GLOBAL_REGISTRY
+            .read()
+            .expect(ERR_POISONED_LOCK)
+            .get(&family_key)
+            .and_then(|w| w.downcast_ref::<FamilyCell<T>>())
+        {
+            return Arc::clone(cell);
+        }
+
+        #[cfg(folo_verif)]
+        crate::verif::block_until("static.wlock", &|| {
+            crate::verif::lock_is_free(GLOBAL_REGISTRY.try_write())
+        });
+
+        let mut global_registry = GLOBAL_REGISTRY.write().expect(ERR_POISONED_LOCK);
+
+        let entry = global_registry
+            .entry(family_key)
+            .or_insert_with(|| Box::new(FamilyCell::<T>::default()));
+
+        Arc::clone(
+            entry
+                .downcast_ref::<FamilyCell<T>>()
+                .expect("family key is unique per static variable, so the type always matches"),
+        )
     }
 
     /// Attempts to register the object family in the global registry (if not already registered).
@@ -193,49 +232,39 @@ where
     where
         FIP: FnOnce() -> T,
     {
-        // TODO: We are repeatedly acquiring the family key here and in sibling functions.
-        // Perhaps a trivial cost but explore the value of eliminating the duplicate access.
+        // The provider is arbitrary user code. In particular, it may itself access linked
+        // variables (even for the first time), so it must never be called with the registry
+        // lock held. We only use the registry lock to obtain the entry of this family and then
+        // initialize that entry on its own terms - if multiple threads race to do so, one of
+        // them calls the provider while the others wait for it, without affecting any other
+        // family.
+        let cell = self.family_cell_global();
+
+        #[cfg(folo_verif)]
         let family_key = (self.family_key_provider)();
 
         #[cfg(folo_verif)]
-        crate::verif::block_until("static.rcheck", &|| {
-            crate::verif::lock_is_free(GLOBAL_REGISTRY.try_read())
+        crate::verif::block_until("static.once", &|| {
+            !crate::verif::is_initializing(family_key)
         });
 
-        // The common case (any thread after the first one): the family is already registered.
-        if GLOBAL_REGISTRY
-            .read()
-            .expect(ERR_POISONED_LOCK)
-            .contains_key(&family_key)
-        {
-            return;
-        }
+        cell.get_or_init(|| {
+            #[cfg(folo_verif)]
+            let _verif_guard = crate::verif::InitializingGuard::new(family_key);
 
-        // The provider is arbitrary user code. In particular, it may itself access linked
-        // variables (even for the first time), so it must never be called with the registry
-        // lock held. We create the candidate first and only then look at the registry again -
-        // if another thread won the race, we make use of our right to throw our candidate away.
-        //
-        // TODO: We create an instance here, only to immediately transform it back to
-        // a family. Can we skip the middle step and just create a family directly?
-        #[cfg(folo_verif)]
-        crate::verif::point("static.init");
+            #[cfg(folo_verif)]
+            crate::verif::point("static.init");
 
-        let first_instance = first_instance_provider();
-        let family = first_instance.family();
+            // TODO: We create an instance here, only to immediately transform it back to
+            // a family. Can we skip the middle step and just create a family directly?
+            let first_instance = first_instance_provider();
+            let family = first_instance.family();
 
-        #[cfg(folo_verif)]
-        crate::verif::block_until("static.wlock", &|| {
-            crate::verif::lock_is_free(GLOBAL_REGISTRY.try_write())
+            #[cfg(folo_verif)]
+            crate::verif::point("static.set");
+
+            family
         });
-
-        // Declared after the candidate, so the lock is released before a losing candidate
-        // is dropped (dropping it is arbitrary user code, too).
-        let mut global_registry = GLOBAL_REGISTRY.write().expect(ERR_POISONED_LOCK);
-
-        if let hash_map::Entry::Vacant(entry) = global_registry.entry(family_key) {
-            entry.insert(Box::new(family));
-        }
     }
 
     // Attempts to obtain a new instance of `T` using the current thread's family registry,
@@ -321,8 +350,12 @@ macro_rules! instances {
 // We also do not care about any hash manipulation because none of this is untrusted user input.
 type FamilyRegistry = HashedMap<TypeId, Box<dyn Any + Send + Sync>>;
 
+// An entry of the global registry: the family, once the "first" instance has been created.
+// The cell is initialized without holding the registry lock (see `try_initialize_global_registry`).
+type FamilyCell<T> = Arc<OnceLock<Family<T>>>;
+
 // Global registry that is the ultimate authority where all static variable based linked object
-// families are registered. Values inside are type-occluded `Family<T>` where T may be different
+// families are registered. Values inside are type-occluded `FamilyCell<T>` where T may be different
 // for each entry.
 static GLOBAL_REGISTRY: LazyLock<RwLock<FamilyRegistry>> =
     LazyLock::new(|| RwLock::new(FamilyRegistry::default()));
